@@ -15,7 +15,7 @@ var mixC12 = Mix{Set: 24, Delete: 8, Get: 2, GetItem: 3, Visit: 2, Totals: 2, Fl
 func init() {
 	register(&Prop{
 		ID: "C12", Level: "exploration",
-		Rule: "case = random history dense in SetCollection (new names and EXISTING names with an order-compatible comparator), RemoveCollection (incl. remove-then-recreate), GetCollection, mutations through the handles returned while nodes are cached, Flush, re-open and snapshots alive across the changes, over 1-4 collections with plain and exotic names (empty, JSON escapes, multi-byte UTF-8, magic strings) and custom comparators. After every step: GetCollectionNames must be the sorted model name set, every current handle and snapshot is fully read back (with node-reuse forcing), the hook walk runs, and after each Flush (and at re-opens) a second store opened on a copy of the file must show exactly the flushed collections - collection changes are durable only at the next Flush. Concurrent cases: 2-3 goroutines, each the single mutator of its OWN two collections (the README's mutator-per-collection mode), create, replace, remove and fill them at the same time under the deterministic scheduler with yield points right before the collection-map compare-and-swap; afterwards GetCollectionNames must be exactly the union of what the owners hold, every handle must be the one its owner was given and hold its owner's items. Non-trivial = the history replaced a non-empty collection or removed-and-recreated a name, mutated afterwards, and re-opened or flushed; distinct = distinct op-trace hash.",
+		Rule: "case = random history dense in SetCollection (new names and EXISTING names with an order-compatible comparator), RemoveCollection (incl. remove-then-recreate), replacement of an EMPTY collection's comparator by a differently parameterised member of the same closure family (which must really be installed), GetCollection, mutations through the handles returned while nodes are cached, Flush, re-open and snapshots alive across the changes, over 1-4 collections with plain and exotic names (empty, JSON escapes, multi-byte UTF-8, magic strings) and custom comparators. After every step: GetCollectionNames must be the sorted model name set, every current handle and snapshot is fully read back (with node-reuse forcing), the hook walk runs, and after each Flush (and at re-opens) a second store opened on a copy of the file must show exactly the flushed collections - collection changes are durable only at the next Flush. Concurrent cases: 2-3 goroutines, each the single mutator of its OWN two collections (the README's mutator-per-collection mode), create, replace, remove and fill them at the same time under the deterministic scheduler with yield points right before the collection-map compare-and-swap; afterwards GetCollectionNames must be exactly the union of what the owners hold, every handle must be the one its owner was given and hold its owner's items. Non-trivial = the history replaced a non-empty collection or removed-and-recreated a name, mutated afterwards, and re-opened or flushed; distinct = distinct op-trace hash.",
 		Assumptions: []string{
 			"a replacement comparator orders the existing keys identically (each name keeps one comparator for the whole case)",
 			"collection names are valid UTF-8 (invalid UTF-8 names are a separately recorded input class, see known findings)",
@@ -24,7 +24,7 @@ func init() {
 		NumCases: func(tier string) int { return pick(tier, 800, 30000) + pick(tier, 600, 20000) },
 		Run:      runC12,
 		Floor: func(tier string, st map[string]int64) string {
-			for _, k := range []string{"op.SetCollection.existing", "op.RemoveCollection", "op.GetCollection", "op.Reopen", "reopen-compares", "c12.recreated", "c12.exotic-name-cases", "c12.custom-cmp-cases", "c12.concurrent-owner-executions", "c12.coll-cas-yields"} {
+			for _, k := range []string{"op.SetCollection.existing", "op.RemoveCollection", "op.GetCollection", "op.Reopen", "reopen-compares", "c12.recreated", "c12.exotic-name-cases", "c12.custom-cmp-cases", "c12.concurrent-owner-executions", "c12.coll-cas-yields", "comparator-replaced-while-empty"} {
 				if st[k] == 0 {
 					return "no " + k + " observed"
 				}
@@ -53,6 +53,11 @@ func runC12(ctx *Ctx, idx int) Result {
 	}
 	if hc.Exotic {
 		ctx.Stats["c12.exotic-name-cases"]++
+	}
+	if !hc.CustomCmp && r.P(30) {
+		hc.RotCmp = true // closures of ONE comparator family, replaced by another member while the collection is empty
+		hc.Mix.Delete += 10
+		hc.Mix.SetCollExisting += 6
 	}
 	h := NewHist(r, cfg, hc, fmt.Sprintf("c12-%d", idx))
 	removed := map[string]bool{}
